@@ -85,6 +85,7 @@ pub fn add_stats(agg: &mut BTreeMap<String, u64>, s: &RunStats) {
     add("add_filter_ok", s.add_filter_ok);
     add("add_filter_err", s.add_filter_err);
     add("optimize_calls", s.optimize_calls);
+    add("fused_rule_matched", s.fused_match);
     add("alloc_fresh_blocks", s.alloc_fresh);
     add("alloc_recycled_blocks", s.alloc_recycled);
     for (i, n) in adblock::verif_hooks::PROBE_NAMES.iter().enumerate() {
@@ -436,6 +437,7 @@ pub fn run_hist_check(prop: &str, tier: &str, seed: u64, workers: u64, runs_over
             "distinct_abstract_states": agg.states.len(),
             "abstract_state_measure": "digest of (enabled tag set, rule-state id, effective optimise flag, number of cache entries, number of compiled cache entries) after each operation",
             "faults_injected": faults,
+            "fused_rule_matched_in_debug_worlds": g("fused_rule_matched"),
             "reach_probes": agg.stats.iter().filter(|(k, _)| k.starts_with("probe_")).map(|(k, v)| (k.clone(), json!(v))).collect::<serde_json::Map<String, Value>>(),
             "witnesses": witness_report,
             "components_real": COMPONENTS_REAL,
@@ -802,6 +804,7 @@ pub fn run_c10_check(tier: &str, seed: u64, workers: u64, buffers_override: Opti
     let mut harness_error = false;
     let mut all_keys: std::collections::HashSet<u64> = std::collections::HashSet::new();
     let mut deaths = 0u64;
+    let mut abandoned_partitions = 0u64;
     // each worker may be respawned after a death; (worker, skip_until)
     let mut pending: Vec<(u64, u64, u32)> = (0..workers).map(|w| (w, 0u64, 0u32)).collect();
     while !pending.is_empty() {
@@ -886,11 +889,11 @@ pub fn run_c10_check(tier: &str, seed: u64, workers: u64, buffers_override: Opti
                             want: "Ok or Err".into(),
                         };
                         replays.push(replay_of(&bs, kind, idx, &bytes, Some(v)));
-                        if gen < 12 {
+                        if gen < 4 {
                             pending.push((w, n + 1, gen + 1));
                         } else {
-                            eprintln!("harness error: worker {} died more than 12 times", w);
-                            harness_error = true;
+                            // every death is already recorded as a violation; stop exploring this partition
+                            abandoned_partitions += 1;
                         }
                     }
                     _ => {
@@ -955,6 +958,7 @@ pub fn run_c10_check(tier: &str, seed: u64, workers: u64, buffers_override: Opti
             "largest_single_allocation_request_bytes": total.max_request,
             "largest_peak_live_bytes_during_a_load": total.max_peak,
             "worker_process_deaths": deaths,
+            "partitions_abandoned_after_repeated_deaths": abandoned_partitions,
             "raw_violations": n_raw_violations,
             "cases_per_hour": if wall > 0.0 { (total.cases as f64 / wall * 3600.0) as u64 } else { 0 },
             "witnesses": witness_report,
